@@ -16,6 +16,8 @@ regenerated from the repository source on every run; helper lemmas: `Spl/Lemmas.
 * `mint_view_agree`, `token_view_agree` — for ALL byte images: the reference unpacker accepts ⇒ the
   framework's zero-copy view accepts, with identical field values. (`view_converse_witness`: the converse
   does not hold — not part of the property.)
+* `validate_mint_agree`, `validate_token_agree` — for ALL images the reference accepts and ALL validation
+  arguments, the framework's `validate_mint` / `validate_token` result is the predicate on the reference fields.
 * `ata_agree` — the helper hashes the same seed list under the same program as the reference derivation.
 -/
 namespace Spl.C16
@@ -129,6 +131,42 @@ example : ∃ t, refUnpackAccount (List.replicate 32 1 ++ List.replicate 32 2 ++
     ++ [1, 0, 0, 0] ++ List.replicate 32 3 ++ [2] ++ [1, 0, 0, 0] ++ [6, 0, 0, 0, 0, 0, 0, 0]
     ++ [7, 0, 0, 0, 0, 0, 0, 0] ++ [1, 0, 0, 0] ++ List.replicate 32 4) = .ok t
     ∧ t.state = 2 ∧ t.isNative = some 6 ∧ t.delegatedAmount = 7 := ⟨_, rfl, rfl, rfl, rfl⟩
+
+/-- For ALL byte images the reference `Mint::unpack` accepts and ALL `ValidateMint` arguments (expected
+decimals / mint authority / freeze authority `Any | None | Some`): `validate()?; validate_mint(arg)` on the
+zero-copy data (raw `PodOption` cells: derived `PartialEq` against `PodOption::some(k)`, `is_some()`)
+gives exactly the result of the same predicate on the reference-unpacked fields — in particular for images
+whose option tag is `NONE` over stale non-zero payload bytes (the SPL program clears only the tag). -/
+theorem validate_mint_agree (b : List Nat) (m : Mint) (a : ValidateMintArg) (h : refUnpackMint b = .ok m) :
+    fwValidateMint true b a = refValidateMint m a := by
+  obtain ⟨vs, hv, hm⟩ := mint_view_agree b m h
+  obtain ⟨hl, hma, h45, hfa, hs, hd, hi⟩ := refUnpackMint_ok h
+  have hdec : getNum vs .decimals = m.decimals := by rw [← hm]; rfl
+  obtain ⟨c1, c2⟩ := mint_cells b
+  simp only [fwValidateMint, refValidateMint, hv, c1, c2, podEqSome_ref hma, podEqSome_ref hfa,
+    podIsSome_ref hfa, hdec]
+  rcases a with ⟨d, au, fr⟩
+  cases d <;> cases au <;> cases fr <;> simp [bne]
+
+/-- non-vacuity (the red-team image): freeze authority cleared — tag `NONE`, 32 stale key bytes `8` — the
+reference reports `None`, and `FreezeAuthority::None` validates; expecting the stale key is rejected. -/
+example :
+    let b := [1, 0, 0, 0] ++ List.replicate 32 7 ++ [1, 2, 3, 4, 5, 6, 7, 8] ++ [9, 1] ++ [0, 0, 0, 0]
+      ++ List.replicate 32 8
+    (∃ m, refUnpackMint b = .ok m ∧ m.freezeAuthority = none)
+      ∧ fwValidateMint true b ⟨some 9, some (List.replicate 32 7), .none⟩ = .ok ()
+      ∧ fwValidateMint true b ⟨none, none, .some (List.replicate 32 8)⟩ = .error .invalidAccountData :=
+  ⟨⟨_, rfl, rfl⟩, rfl, rfl⟩
+
+/-- For ALL byte images the reference `Account::unpack` accepts and ALL `ValidateToken` arguments:
+`validate()?; validate_token(arg)` = the same predicate (and error class: mint → `InvalidAccountData`, then
+owner → `IncorrectAuthority`) on the reference-unpacked fields. -/
+theorem validate_token_agree (b : List Nat) (t : TokenAcc) (a : ValidateTokenArg)
+    (h : refUnpackAccount b = .ok t) : fwValidateToken true b a = refValidateToken t a := by
+  obtain ⟨vs, hv, ht⟩ := token_view_agree b t h
+  have hmint : getKey vs .mint = t.mint := by rw [← ht]; rfl
+  have hown : getKey vs .owner = t.owner := by rw [← ht]; rfl
+  simp only [fwValidateToken, refValidateToken, hv, hmint, hown]
 
 /-- The converse is not part of the property and does not hold: `PodOption` is `Pod`, so the view accepts
 an image whose option tag is neither `NONE` nor `SOME` (here `[2,0,0,0]`), which `Mint::unpack` rejects;
